@@ -83,7 +83,9 @@ func (e *Engine) allocFingerprints(fn *ssa.Function) map[*ssa.Alloc]string {
 	perCallee := map[string]int{}
 	kindOrd := map[ssa.Instruction]int{}
 	perKind := map[string]int{}
-	tname := func(t types.Type) string { return types.TypeString(t, func(p *types.Package) string { return p.Name() }) }
+	tname := func(t types.Type) string {
+		return types.TypeString(t, func(p *types.Package) string { return p.Name() })
+	}
 	kindOf := func(in ssa.Instruction) string {
 		switch x := in.(type) {
 		case *ssa.Next:
